@@ -79,13 +79,18 @@ def doc_strategy():
         inline = draw(st.booleans())
         region = '<region xml:id="r1" style="pos"/>' if not inline else \
             f'<region xml:id="r1" tts:origin="{org}" tts:extent="{ext}" tts:textAlign="{al}"/>'
+        # style references: 1-4 ids in any order, an id may be repeated
+        ids = st.lists(st.sampled_from(["s1", "s2", "s3", "base"]), min_size=1, max_size=4).map(" ".join)
+        sp, ss, s3 = draw(ids), draw(ids), draw(st.sampled_from(["", ' style="base"', ' style="s1 base s1"']))
         doc = ('<?xml version="1.0" encoding="utf-8"?>\n<tt xml:lang="en" xmlns="http://www.w3.org/ns/ttml" '
                'xmlns:tts="http://www.w3.org/ns/ttml#styling"><head><styling>'
                f'<style xml:id="pos" tts:origin="{org}" tts:extent="{ext}" tts:textAlign="{al}"/>'
+               f'<style xml:id="base" tts:fontFamily="serif"/>'
                f'<style xml:id="s1" tts:color="red"/><style xml:id="s2" tts:fontStyle="italic"/>'
+               f'<style xml:id="s3" tts:fontWeight="bold"{s3}/>'
                f'</styling><layout>{region}</layout></head><body><div xml:lang="en">'
-               '<p begin="00:00:01.000" end="00:00:02.000" region="r1" style="s1 s2">one</p>'
-               '<p begin="00:00:03.000" end="00:00:04.000" region="r1"><span style="s2 s1">two</span></p>'
+               f'<p begin="00:00:01.000" end="00:00:02.000" region="r1" style="{sp}">one</p>'
+               f'<p begin="00:00:03.000" end="00:00:04.000" region="r1"><span style="{ss}">two</span></p>'
                '</div></body></tt>')
         return {"op": "add_doc", "fmt": "dfxp", "doc": doc}
 
@@ -155,10 +160,15 @@ def doc_strategy():
     def sami_family(draw):
         margin = draw(st.sampled_from(["5%", "10%", "0%"]))
         al = draw(st.sampled_from(["left", "center", "right"]))
+        # paragraphs with or without an inline alignment; one shape makes the reader fail in the
+        # middle of a caption (empty class attribute: IndexError on the pinned tree too)
+        p1 = draw(st.sampled_from(['<P Class=ENCC>one', '<P Class=ENCC style="text-align:right">one',
+                                   '<P Class=ENCC style="text-align:left"><span style="text-align:center">one</span>',
+                                   '<P Class=ENCC style="text-align:right"><span class="">x</span>']))
         doc = ('<SAMI><HEAD><STYLE TYPE="text/css"><!--\n'
                f'P {{ margin-left: {margin}; margin-right: {margin}; text-align: {al}; }}\n'
                '.ENCC { Name: English; lang: en-US; }\n--></STYLE></HEAD><BODY>'
-               '<SYNC Start=1000><P Class=ENCC>one</SYNC><SYNC Start=2000><P Class=ENCC>&nbsp;</SYNC>'
+               f'<SYNC Start=1000>{p1}</SYNC><SYNC Start=2000><P Class=ENCC>&nbsp;</SYNC>'
                '</BODY></SAMI>')
         return {"op": "add_doc", "fmt": "sami", "doc": doc}
 
